@@ -225,7 +225,7 @@ def playback_values(d, hname, timeout_s):
 
 def native_replay(unit, hname, values, tag="replay"):
     """run the same harness function natively in a fresh scratch copy; -> (result, output tail)"""
-    if unit.get("contract_stubs"):
+    if unit.get("contract_stubs") and hname.split("::")[-1] not in unit.get("replayable", []):
         return "unavailable", "harness uses contract stubs (%s): the native program differs from the verified one" % \
                ", ".join(unit["contract_stubs"])
     d, _ = prepare([unit], tag)
@@ -362,7 +362,7 @@ def run_units(sel, tier, prop, keep=False, jobs=None):
             if not bad:
                 bad = [(hn, c) for hn, c in ur["harnesses"].items() if c["status"] == "FAIL"]
             hn, c = bad[0]
-            vals, why = playback_values(d, hn, 600 if tier == "quick" else 1800)
+            vals, why = playback_values(d, hn, 300 if tier == "quick" else 1800)
             rep = {"property": prop, "unit": u["id"], "harness": hn, "failed": c["failed"][:5],
                    "values": vals, "values_note": why, "verifier": "kani 0.68.0 / cbmc 6.11",
                    "verifier_output": terse_tail(out, hn), "functions": u.get("functions", []),
